@@ -1,46 +1,45 @@
 #!/usr/bin/env python3
-"""Applies every seeded change (seeded/<id>/patch.diff) to /repo in turn, runs the check of its property (and the
-related checks listed in EXTRA) at the quick tier, records exit code and first VIOLATION line in seeded/<id>/meta.json
-("detection") and restores /repo with `git checkout -- .`.  /repo must be clean and otherwise unused while this runs.
+"""Runs, for every seeded change (seeded/<id>/patch.diff), the check of its property (and the related checks listed in
+EXTRA) on a scratch worktree with the patch applied (tools/try_patch.sh: private mount namespace, /repo is not touched)
+and records exit code and first counterexample line in seeded/<id>/meta.json ("detection").
 
-usage: sweep_seeded.py [id ...]          (default: all)   env TIER=quick|thorough
+usage: sweep_seeded.py [-j N] [id ...]          (default: all)   env TIER=quick|thorough
 """
-import os, sys, json, glob, subprocess, time
+import os, sys, json, glob, subprocess, time, re
+from concurrent.futures import ThreadPoolExecutor
 V = os.path.dirname(os.path.dirname(os.path.abspath(__file__)))
 EXTRA = {'C13-1': ['C01'], 'C12-1': ['C03'], 'C04-2': ['C08'], 'C01-2': ['C03'], 'C10-1': ['C08'], 'C08-1': ['C10']}
 TIER = os.environ.get('TIER', 'quick')
+VERDICT = {0: 'missed (check passes)', 1: 'detected (VIOLATION, natively replayed)', 2: 'inconclusive (no verdict)'}
 
-def sh(cmd, **kw):
-    return subprocess.run(cmd, shell=True, stdout=subprocess.PIPE, stderr=subprocess.STDOUT, text=True, **kw)
+def one(sid):
+    d = os.path.join(V, 'seeded', sid)
+    meta = json.load(open(os.path.join(d, 'meta.json')))
+    props = [meta['property']] + EXTRA.get(sid, [])
+    t0 = time.time()
+    r = subprocess.run([os.path.join(V, 'tools', 'try_patch.sh'), os.path.join(d, 'patch.diff')] + props,
+                       stdout=subprocess.PIPE, stderr=subprocess.STDOUT, text=True, env=dict(os.environ, WIDTH='400'))
+    det = {}
+    for line in r.stdout.splitlines():
+        m = re.match(r'^\S+ (C\d\d) exit=(\d+) ?(.*)$', line)
+        if m:
+            rc = int(m.group(2))
+            det[m.group(1)] = {'tier': TIER, 'exit': rc, 'verdict': VERDICT.get(rc, 'error'), 'first_line': m.group(3) or None}
+    meta['detection'] = det
+    meta['detection_run'] = {'tool': 'tools/sweep_seeded.py', 'tier': TIER, 'wall_s': round(time.time() - t0, 1)}
+    json.dump(meta, open(os.path.join(d, 'meta.json'), 'w'), indent=1)
+    return sid, det, r.stdout if not det else ''
 
 def main():
-    ids = sys.argv[1:] or sorted(os.path.basename(d) for d in glob.glob(os.path.join(V, 'seeded', 'C*')))
-    if sh('git -C /repo status --porcelain').stdout.strip():
-        print('refusing: /repo has local changes'); return 2
-    for sid in ids:
-        d = os.path.join(V, 'seeded', sid)
-        meta = json.load(open(os.path.join(d, 'meta.json')))
-        r = sh('git -C /repo apply %s' % os.path.join(d, 'patch.diff'))
-        if r.returncode:
-            print(sid, 'patch does not apply:', r.stdout[:200]); continue
-        try:
-            det = {}
-            for prop in [meta['property']] + EXTRA.get(sid, []):
-                t0 = time.time()
-                r = sh('%s/check %s --tier %s' % (V, prop, TIER))
-                lines = r.stdout.splitlines()
-                vio = [l for l in lines if l.startswith('VIOLATION')]
-                cex = [l for l in lines if l.startswith('counterexample:')]
-                inc = [l for l in lines if l.startswith('INCONCLUSIVE')]
-                det[prop] = {'tier': TIER, 'exit': r.returncode, 'wall_s': round(time.time() - t0, 1),
-                             'verdict': {0: 'missed (check passes)', 1: 'detected (VIOLATION, natively replayed)', 2: 'inconclusive (no verdict)'}.get(r.returncode, 'error'),
-                             'first_counterexample': (cex[0][:400] if cex else None), 'violations': len(vio),
-                             'inconclusive': (inc[-1][:300] if inc and r.returncode == 2 else None)}
-                print(sid, prop, 'exit', r.returncode, (cex[0][:150] if cex else (inc[-1][:150] if inc else '')), flush=True)
-            meta['detection'] = det
-            json.dump(meta, open(os.path.join(d, 'meta.json'), 'w'), indent=1)
-        finally:
-            sh('git -C /repo checkout -- .')
-            sh('git -C /repo clean -fdq -- mpd_client mpd_protocol')
-    return 0
-sys.exit(main())
+    args = sys.argv[1:]
+    jobs = 6
+    if args and args[0] == '-j':
+        jobs = int(args[1]); args = args[2:]
+    ids = args or sorted(os.path.basename(d) for d in glob.glob(os.path.join(V, 'seeded', 'C*')))
+    with ThreadPoolExecutor(jobs) as ex:
+        for sid, det, err in ex.map(one, ids):
+            print(sid, ' '.join('%s:%s' % (p, v['exit']) for p, v in det.items()), err[:300], flush=True)
+            for p, v in det.items():
+                if v['exit'] != 1 and v['first_line']:
+                    print('    ', p, v['first_line'][:200])
+main()
